@@ -133,6 +133,13 @@ CHECKS = {
          "decoding exactly the consumed bytes, the consumed bytes followed by each tail of the menu, and the maxlen window all yield the same instruction (bytes, mnemonic, operands, type, misc).",
     note="Same enumerator and bounds as C17. Known findings (dwarf/wasm/msp430 LEB/immediate tails accepted when missing) are listed in KNOWN_FINDINGS.json keyed by (ISA, mode, relation, setup function).",
     design="DESIGN.md section 3, C05"),
+ "C07": dict(
+    category="model_checking",
+    technique="complete spec-driven enumeration of 15-byte x86/x64 candidates (every shipped spec, Mod x RM, SIB, prefix and branch menus) compared with a vendored reference table produced by binutils objdump and LLVM llvm-objdump",
+    text="Every candidate of the enumeration, in 32- and 64-bit mode, is looked up in the reference table (rows missing from the vendored table - e.g. because a modified tree enumerates new candidates - are computed on the fly with the installed tools). "
+         "Where both references agree on a valid instruction and amoco decodes at all, amoco's length must equal theirs and relative jmp/jcc/call/loop displacements must equal target - next address.",
+    note="~150 000 candidates, ~120 000 eligible rows compared (quick); thorough adds all 65 536 two-byte prefixes x 3 tails. The 'random byte strings' clause is replaced by this structured cross product. References: binutils 2.40, LLVM 14.",
+    design="DESIGN.md section 3, C07"),
  "C08": dict(
     category="model_checking",
     technique="explicit-state exploration of write/copy/restruct/shift/merge histories on the real MemoryMap against a dict byte-store reference",
